@@ -876,6 +876,10 @@ def orbit_cases(ctx):
                   (em, L, "vertical", {"amplitude_z": 0.05}),
                   (se, L, "halo", {"amplitude_z": 0.001, "zenith": "southern"}),
                   (se, L, "lyapunov", {"amplitude_x": 0.0005})]
+    # the same correction problem with the control variables listed in the opposite order (the unknowns of a Newton problem may be
+    # listed in any order; families without an extra Jacobian term): every clause below applies unchanged
+    cases += [(em, 1, "lyapunov", {"amplitude_x": 0.01, "_reverse_controls": True}),
+              (em, 2, "vertical", {"amplitude_z": 0.05, "_reverse_controls": True})]
     # seed-dependent amplitudes inside the range where the analytic seed is valid
     r = ctx.rng
     cases += [(em, r.choice([1, 2]), "halo", {"amplitude_z": round(r.uniform(0.01, 0.3), 4), "zenith": r.choice(["northern", "southern"])}),
@@ -998,7 +1002,14 @@ def numerics(ctx, cases=None):
         lp = sysm.get_libration_point(L)
         ident = {"system": "-".join(bodies), "mu": mu, "L": L, "family": fam, "params": kw}
         try:
+            kw = dict(kw)
+            reverse_controls = kw.pop("_reverse_controls", False)
             orb = lp.create_orbit(fam, **kw)
+            if reverse_controls:
+                import dataclasses
+                c0 = orb.correction_config
+                orb.correction_config = dataclasses.replace(c0, control_indices=tuple(reversed(tuple(c0.control_indices))))
+                ident = dict(ident, correction_config="default with control_indices=%r" % (tuple(int(i) for i in orb.correction_config.control_indices),))
             guess = np.array(orb.initial_state, dtype=float)
             opts = orb.correction_options
             tol = float(opts.base.convergence.tol)
